@@ -229,8 +229,9 @@ Unord(v) ==
                           !.y = [i \in 1..Len(v.y) |-> Unord(v.y[i])]]
 
 RECURSIVE Depth(_)
-Depth(v) == LET cs == ChildSeq(v)
-            IN IF cs = <<>> THEN 1 ELSE 1 + Max({Depth(cs[i]) : i \in 1..Len(cs)})
+Depth(v) == LET cs == ChildSeq(v)    \* a leaf has depth 1, a container (even an empty one) at least 2
+            IN IF IsLeafLike(v) \/ v.k = "error" THEN 1
+               ELSE 1 + Max({1} \cup {Depth(cs[i]) : i \in 1..Len(cs)})
 
 (***************************************************************************)
 (* JSON <-> trees.  ToJson writes sets as arrays; FromJ turns the arrays   *)
